@@ -123,6 +123,11 @@ pub struct Built {
 
 const SUPPRESSED: [&str; 3] = ["cookie", "content-length", "authorization"];
 
+thread_local! {
+    /// set when Flow::header() failed or panicked for a header that is valid by construction (names / values of the drivers)
+    static HEADER_ADD_FAILED: std::cell::Cell<bool> = std::cell::Cell::new(false);
+}
+
 /// Build the system under test for a request spec and describe the request for the specification.
 pub fn build_sut(s: &ReqSpec) -> Option<Built> {
     match s.api {
@@ -149,7 +154,14 @@ pub fn build_sut(s: &ReqSpec) -> Option<Built> {
                 if s.sensitive && k % 2 == 0 {
                     hv.set_sensitive(true);
                 }
-                f.header(n.as_str(), hv).ok()?;
+                // (a failure while adding a header is reported by the caller as a request that could not be built)
+                match guarded(|| f.header(n.as_str(), hv)) {
+                    Some(Ok(())) => {}
+                    _ => {
+                        HEADER_ADD_FAILED.with(|x| x.set(true));
+                        return None;
+                    }
+                }
             }
             if s.despite && !s.despite_first {
                 f.send_body_despite_method();
@@ -316,9 +328,17 @@ fn ev_view(t: &mut Tracer, s: &ReqSpec) {
 /// One request: reference run, then buffer schedules, all logged. `schedules` are lists of buffer sizes
 /// (the last size is repeated until the head is complete).
 pub fn exercise(t: &mut Tracer, s: &ReqSpec, rng: &mut StdRng, nsched: usize, chk_orig: bool, note: &str) {
+    HEADER_ADD_FAILED.with(|x| x.set(false));
     let mut b = match build_sut(s) {
         Some(b) => b,
-        None => return,
+        None => {
+            if HEADER_ADD_FAILED.with(|x| x.get()) {
+                t.case(json!({"ev":"case","comp":"sendhead","rq":{"method":s.method,"version":s.version,"api":"flow","despite":s.despite,"target":"","hosthex":"","hostporthex":"","added":[],"orig":[],"depth":s.hops.len()},
+                              "lens":[],"chk_orig":false,"note":"header could not be added"}));
+                t.ev(json!({"ev":"stuck","during":format!("adding header number {} of {} to a flow in the prepare state (refused or panicked)", 0, s.added.len())}));
+            }
+            return;
+        }
     };
     if !s.hops.is_empty() {
         t.class("req:on-redirected-flow");
@@ -489,7 +509,8 @@ pub fn c02(o: &Opts, t: &mut Tracer) -> Value {
         // at most one of Content-Length / Transfer-Encoding: chunked, only where a body is allowed
         let despite = api == "flow" && !body_method && depth == 0 && i % 3 == 1;
         if (body_method && depth == 0) || despite {
-            match i % 5 {
+            // (taken from another digit than depth / despite, so that every combination occurs, also "despite without framing")
+            match (i / 3) % 5 {
                 0 => orig.push(("content-length".into(), rng.gen_range(0..100000u32).to_string().into_bytes())),
                 1 => orig.push(("transfer-encoding".into(), b"chunked".to_vec())),
                 2 if api == "flow" => added.push(("Content-Length".into(), b"7".to_vec())),
